@@ -79,8 +79,12 @@ func (r *replayer) replayTokenSpace(t Tables, seed int64, workers int) int64 {
 				lexA := map[string]string{"L": cfg.LexL, "E": cfg.LexE, "LR": "LicenseRef-a", "DR": "DocumentRef-d"}
 				lexB := map[string]string{"L": plain[rng.Intn(len(plain))], "E": t.Exceptions[rng.Intn(len(t.Exceptions))],
 					"LR": "LicenseRef-" + []string{"x", "1.0", "A-b", "MIT"}[rng.Intn(4)], "DR": "DocumentRef-" + []string{"y", "2", "spdx-tool-1.2"}[rng.Intn(3)]}
-				for _, lex := range []map[string]string{lexA, lexB} {
-					for _, tight := range []bool{false, true} {
+				variants := []map[string]string{lexA, lexB}
+				for vi, lex := range variants {
+					for ti, tight := range []bool{false, true} {
+						if !r.allVariants && vi != ti {
+							continue // quick tier: model lexemes loose, seed-chosen lexemes tight
+						}
 						text := renderClasses(seq, lex, tight)
 						rec := &Rec{K: "str", S: text, Valid: exp, Comp: exp && (containsClass(seq, "AND") || containsClass(seq, "OR"))}
 						c, _ := r.checkRec(rec, rng)
